@@ -56,7 +56,7 @@ def row2fts(row, type_=None, seqid=None):
 
 def fts2row(fts):
     row = []
-    last_stop = None
+    last_stop = 0
     for ft in fts.sort():
         if len(ft.locs) > 1:
             warn('More than one location in feature, use full loc_range')
